@@ -178,8 +178,9 @@ def get_field_type_from_annotations(some_class: type, field_name: str) -> type:
 
     # The type of the field might be a string when using `from __future__ import annotations`.
     # Get the local and global namespaces to pass to the `get_type_hints` function.
-    local_ns: dict[str, Any] = {"typing": typing, **vars(typing)}
-    local_ns.update(forward_refs_to_types)
+    # NOTE: the names of `typing` have the lowest priority (they are the base of `global_ns` below): a class of the
+    # user's module that happens to be called `Text`, `Type`, `Counter`, ... must not be shadowed by them.
+    local_ns: dict[str, Any] = {}
 
     # NOTE: Get the local namespace of the calling function / module where this class is defined,
     # and use it to get the correct type of the field, if it is a forward reference.
@@ -194,7 +195,8 @@ def get_field_type_from_annotations(some_class: type, field_name: str) -> type:
         local_ns.update(frame.f_locals)
 
     # Get the global_ns in the module starting from the deepest base until the module with the field_name last definition.
-    global_ns = {}
+    global_ns = {"typing": typing, **vars(typing)}
+    global_ns.update(forward_refs_to_types)
     # `get_type_hints(some_class)` below evaluates the annotations of *every* class in the MRO with these globals, so
     # the names of all the modules involved have to be visible (lowest priority), not only those of the modules up to
     # the one that defines `field_name`.
